@@ -2,6 +2,7 @@ package world
 
 import (
 	"fmt"
+	"reflect"
 
 	ad "github.com/pbenner/autodiff"
 	"verif/sim/core"
@@ -26,6 +27,7 @@ type vsHandle struct {
 	v   ad.Vector
 	off int
 	n   int
+	raw bool // made by the caller's own v[a:b]: its capacity is the caller's business
 }
 
 func RunVectorSliceOps(c *core.Ctx) {
@@ -45,20 +47,27 @@ func RunVectorSliceOps(c *core.Ctx) {
 	}
 	hs := []vsHandle{}
 	// a chain of nested slices
-	cur := vsHandle{root, 0, n}
+	cur := vsHandle{root, 0, n, false}
 	depth := t.Range(1, 3)
 	for d := 0; d < depth; d++ {
 		a := t.Choose(cur.n + 1)
 		b := a + t.Choose(cur.n-a+1)
 		var s ad.Vector
-		magic := false
+		magic, raw := false, false
 		if _, ok := cur.v.(ad.MagicVector); ok && t.Bool(1, 3) {
 			magic = true
+		} else if t.Bool(1, 4) {
+			// the dense vector types are Go slices: v[a:b] written by the caller
+			// is a view as well (with the capacity of the rest of v)
+			raw = true
 		}
 		if pv, site := core.Try(func() {
-			if magic {
+			switch {
+			case magic:
 				s = cur.v.(ad.MagicVector).MagicSlice(a, b).(ad.Vector)
-			} else {
+			case raw:
+				s = reflect.ValueOf(cur.v).Slice(a, b).Interface().(ad.Vector)
+			default:
 				s = cur.v.Slice(a, b)
 			}
 		}); pv != nil {
@@ -67,7 +76,7 @@ func RunVectorSliceOps(c *core.Ctx) {
 		if s.Dim() != b-a {
 			fail("addressing", "Slice|wrong-dimension", "Slice(%d,%d) has dimension %d", a, b, s.Dim())
 		}
-		cur = vsHandle{s, cur.off + a, b - a}
+		cur = vsHandle{s, cur.off + a, b - a, raw}
 		hs = append(hs, cur)
 		c.Logf("slice %d = [%d,%d) of the root", d, cur.off, cur.off+cur.n)
 	}
@@ -213,10 +222,10 @@ func RunVectorSliceOps(c *core.Ctx) {
 			}},
 			// appends return a longer vector; the slice and everything outside of
 			// it stay as they are
-			{"AppendScalar", true, true, func(v ad.Vector) obs {
+			{"AppendScalar", !h.raw, true, func(v ad.Vector) obs {
 				return obsVector("AppendScalar", v.AppendScalar(ad.NewScalar(e.t, x), ad.NewScalar(e.t, e.norm(x+1))))
 			}},
-			{"AppendVector", true, true, func(v ad.Vector) obs {
+			{"AppendVector", !h.raw, true, func(v ad.Vector) obs {
 				return obsVector("AppendVector", v.AppendVector(mkVector(e, sa, xm)))
 			}},
 			// reading
